@@ -377,11 +377,26 @@ func registerLib(e *Engine) {
 	// not reentrant); Unlock while not held panics.
 	L["(*sync.Mutex).Lock"] = func(s *State, site ssa.Instruction, args []Val) []Val {
 		s.oblige("lock", site, s.c.ordinal(site, "lock"), not(s.held), "Lock() while this goroutine already holds the mutex (self-deadlock)", false)
+		s.c.usesLock = true
 		s.held = "true"
+		if t, desc, ok := s.monitorInv(site); ok {
+			s.assume(t)
+			s.c.assumed["monitor invariant "+desc+" holds whenever the mutex is free (established by the constructor, re-established before every Unlock: proved)"] = true
+		}
 		return nil
 	}
 	L["(*sync.Mutex).Unlock"] = func(s *State, site ssa.Instruction, args []Val) []Val {
 		s.oblige("lock", site, s.c.ordinal(site, "lock"), s.held, "Unlock() of a mutex this goroutine does not hold", false)
+		if _, desc, ok := s.monitorInv(site); ok {
+			mon, obj := s.monitorOf(site)
+			p := s.c.eng.contracts.Preds[mon.Pred]
+			for i, part := range unfoldConj(p.Body, s.c.eng.contracts.Preds, mon.Pkg, 0) {
+				x := &EvalCtx{s: s, vars: map[string]Val{p.Params[0]: obj}, pkg: s.c.eng.pkgByName[mon.Pkg]}
+				v := x.eval(part)
+				s.c.specErrors(x, mon.Where)
+				s.oblige("monitor-inv", site, i+1, v.S, desc+" must hold again when the mutex is released: "+part.String(), true)
+			}
+		}
 		s.held = "false"
 		return nil
 	}
@@ -407,4 +422,46 @@ func (s *State) havocObject(ref string, t types.Type) {
 		}
 		s.storeAddr(fa, s.freshVal(ft, "decoded_"+st.Field(i).Name()))
 	}
+}
+
+// monitorOf finds the monitor declaration and the protected object for a Lock/Unlock whose receiver was loaded
+// from the declared mutex field.
+func (s *State) monitorOf(site ssa.Instruction) (*Monitor, Val) {
+	recv := callArg(site, 0)
+	u, ok := recv.(*ssa.UnOp)
+	if !ok {
+		return nil, Val{}
+	}
+	fa, ok := u.X.(*ssa.FieldAddr)
+	if !ok {
+		return nil, Val{}
+	}
+	pt := derefType(fa.X.Type())
+	n, ok := pt.(*types.Named)
+	if !ok || n.Obj().Pkg() == nil {
+		return nil, Val{}
+	}
+	fname := pt.Underlying().(*types.Struct).Field(fa.Field).Name()
+	for i := range s.c.eng.contracts.Monitors {
+		m := &s.c.eng.contracts.Monitors[i]
+		if m.Type == n.Obj().Name() && m.Pkg == n.Obj().Pkg().Name() && m.Field == fname {
+			return m, s.valOf(fa.X)
+		}
+	}
+	return nil, Val{}
+}
+
+func (s *State) monitorInv(site ssa.Instruction) (string, string, bool) {
+	mon, obj := s.monitorOf(site)
+	if mon == nil {
+		return "", "", false
+	}
+	p := s.c.eng.contracts.Preds[mon.Pred]
+	if p == nil || len(p.Params) != 1 {
+		return "", "", false
+	}
+	x := &EvalCtx{s: s, vars: map[string]Val{p.Params[0]: obj}, pkg: s.c.eng.pkgByName[mon.Pkg]}
+	v := x.eval(p.Body)
+	s.c.specErrors(x, mon.Where)
+	return v.S, mon.Pred + "(" + mon.Type + ")", true
 }
